@@ -192,7 +192,7 @@ func gen(r *rand.Rand, thorough bool, i int) []string {
 		base = int64(r.Intn(1000))
 	}
 	malformed := r.Intn(15) == 0
-	pruneMaxOK := r.Intn(3) == 0 // pruning the newest start only in a third of the cases
+	pruneMaxOK := r.Intn(3) != 0 // pruning the newest start (emptying the storage) in two thirds of the cases
 	var starts []int64
 	pick := func() int64 {
 		switch x := r.Intn(10); {
@@ -426,7 +426,7 @@ func main() {
 			return 3000
 		},
 		Fixed: [][]string{
-			{"new", "put 5 1", "put 10 2", "prune 10", "put 3 3", "get 12", "mb 16", "latest", "get 7", "rounds"}, // stale max (known finding)
+			{"new", "put 5 1", "put 10 2", "prune 10", "put 3 3", "get 12", "mb 16", "latest", "get 7", "rounds"}, // stale max (finding fixed in repo commit 582e5a1; a regression is reported under this signature)
 			{"new", "put 5 1", "put 10 2", "get 7", "prune 5", "get 7", "mb 11", "get 12"},                          // strict reading of "pruned point"
 			{"new", "put 0 1", "put 151 4", "put 5 2", "put 251 5", "put 51 3", "get 0", "get 50", "get 100000000", "prune 150", "prune 0", "rounds", "prune 151", "rounds", "prune 251", "count"},
 			{"new", "mb 3", "put 501 1", "mb 3", "mb 504", "mb 505", "mb 506", "prev 505", "prev 506"},
